@@ -129,5 +129,12 @@ def g2(chk, repo):
 
 
 def run(chk, repo, tier):
+    from .c19 import keys_rule
+    from .c20 import l3b
+    from .common import all_models
+
     g1(chk, repo)
     g2(chk, repo)
+    # the guard keys reach VortexMesh unchanged: copied for multi-section surfaces, never rewritten
+    keys_rule(chk, repo, rule="G4", only_keys={"groundplane", "symmetry"})
+    l3b(chk, repo, all_models(repo), rule="G1b", only_keys={"groundplane", "symmetry"})
